@@ -4,7 +4,7 @@
 # Run a check against it:  VERIF_REPO_SRC=/tmp/en-<name>/src ./check C01 --no-evidence
 set -e
 case "$1" in
-  new) d=/tmp/en-$2; git -C /repo worktree add -q --detach "$d" HEAD; cp /repo/src/easynetwork/version.py "$d/src/easynetwork/version.py"; echo "$d";;
+  new) d=/tmp/en-$2; git -C /repo worktree add -q --detach "$d" "${3:-HEAD}"; cp /repo/src/easynetwork/version.py "$d/src/easynetwork/version.py"; echo "$d";;
   rm) git -C /repo worktree remove --force /tmp/en-$2; git -C /repo worktree prune;;
   *) echo "usage: $0 new|rm <name>"; exit 2;;
 esac
